@@ -42,6 +42,7 @@ func selftest(r *evid.Run) {
 		{"MC_Session", "MC_Session_asbuilt_SharedGrower.cfg", "CallsAreIndependent"},
 		{"MC_Session", "MC_Session_asbuilt_PooledParser.cfg", "CallsAreIndependent"},
 		{"MC_Session", "MC_Session_asbuilt_CallerSlice.cfg", "CallsAreIndependent"},
+		{"MC_Session", "MC_Session_asbuilt_OptionOwnsCtx.cfg", "CallsAreIndependent"},
 	}
 	for _, a := range asbuilt {
 		res, err := tlcrun.Run(tlcrun.Opts{SpecDir: specDir, Module: a.module, Cfg: a.cfg, Timeout: 5 * time.Minute}, nil)
